@@ -1,4 +1,60 @@
-From Emitter Require Import Lib.Base Model.Broker.
-Theorem C18_placeholder : presenceW = 3869262148.
-Proof. reflexivity. Qed.
-Print Assumptions C18_placeholder.
+(* C18 - Presence reports who is subscribed.
+   Model: the presence request handler, subscribe_ev / unsubscribe_ev (which queue the change
+   notifications) and dispatch (the single FIFO notification queue) of Model/Broker.v. *)
+From Emitter Require Import Lib.Base Model.MsgCodec Model.Channel Model.Key Model.Trie Model.Store Model.Broker
+     Spec.PubSub Spec.BrokerSpec Proofs.BrokerProofs Proofs.BrokerStep.
+
+(* a status request lists exactly the connections that would receive a message published to the
+   channel now - those holding a subscription whose filter matches - with their usernames *)
+Theorem C18_status_exact : forall {I} (X : ixops I) abs inv, IxSpec X abs inv ->
+  forall mqtt (b : @broker I) ssid i u, inv (b_trie b) ->
+  (In (i, u) (presence_who X mqtt b ssid) <->
+   exists s f c, In (f, s) (abs (b_trie b)) /\ matches mqtt f ssid = true
+                 /\ conn_of_sub (b_conns b) s 0 = Some i /\ get_conn (b_conns b) (N.to_nat i) = Some c /\ u = cn_user c).
+Proof. intros I X abs inv HS. exact (presence_status_exact X abs inv HS). Qed.
+Print Assumptions C18_status_exact.
+
+(* each subscription a connection makes queues exactly one 'subscribe' notification and its end
+   exactly one 'unsubscribe' (also when the connection goes away: C08), appended to one FIFO queue -
+   so in the order of the transitions; repeats and unsubscribes of what is not held queue nothing *)
+Theorem C18_one_notification_per_transition : forall {I} (X : ixops I) (b : @broker I) mqtt i c ssid ch,
+  (has_ctr c ssid = false ->
+     b_queue (subscribe_ev X b i c ssid ch) = b_queue b ++ [Notif true (0 :: presenceW :: ssid) ch i (cn_user c)])
+  /\ (has_ctr c ssid = true -> b_queue (subscribe_ev X b i c ssid ch) = b_queue b)
+  /\ (has_ctr c ssid = true ->
+     b_queue (unsubscribe_ev X mqtt b i c ssid ch) = b_queue b ++ [Notif false (0 :: presenceW :: ssid) ch i (cn_user c)])
+  /\ (has_ctr c ssid = false -> b_queue (unsubscribe_ev X mqtt b i c ssid ch) = b_queue b).
+Proof. intros I X. exact (transitions_notify X). Qed.
+Print Assumptions C18_one_notification_per_transition.
+
+(* a notification is written, once each, to exactly the connections holding - when it is dispatched -
+   a presence-change subscription on the channel or on a parent of it (the presence ssid is
+   [0; presence; contract; levels...] and matching is by prefix), so none after the request was
+   cancelled; dispatching writes nothing but presence notifications and empties the queue *)
+Theorem C18_notification_reaches_exactly_the_watchers : forall {I} (X : ixops I) abs inv, IxSpec X abs inv ->
+  forall e (acc : @broker I) n, inv (b_trie acc) ->
+  let f := (fun acc2 s => match conn_of_sub (b_conns acc2) s 0 with
+                          | Some i => emit acc2 i (PPresence (nf_sub n) (nf_chan n) (nf_who n) (nf_user n))
+                          | None => acc2 end) in
+  let r := fold_left f (ix_lookup X (e_mqtt e) (nf_ssid n) (b_trie acc)) acc in
+  exists tg, b_out r = b_out acc ++ map (fun i => (i, PPresence (nf_sub n) (nf_chan n) (nf_who n) (nf_user n))) tg
+    /\ NoDup tg
+    /\ forall i, In i tg <-> exists s g, In (g, s) (abs (b_trie acc)) /\ matches (e_mqtt e) g (nf_ssid n) = true
+                                         /\ conn_of_sub (b_conns acc) s 0 = Some i.
+Proof. intros I X abs inv HS. exact (notification_dispatch_exact X abs inv HS). Qed.
+Print Assumptions C18_notification_reaches_exactly_the_watchers.
+
+Theorem C18_dispatch_only_notifies : forall {I} (X : ixops I) e (b : @broker I),
+  b_trie (dispatch X e b) = b_trie b /\ b_conns (dispatch X e b) = b_conns b /\ b_store (dispatch X e b) = b_store b
+  /\ b_queue (dispatch X e b) = []
+  /\ exists notes, b_out (dispatch X e b) = b_out b ++ notes /\ Forall is_presence notes.
+Proof.
+  intros I X e b. destruct (dispatch_state X e b) as (A1 & A2 & A3 & _ & A5 & _).
+  destruct (dispatch_only_presence X e b) as (notes & O & F). repeat (split; [assumption|]). exists notes. auto.
+Qed.
+Print Assumptions C18_dispatch_only_notifies.
+
+Example C18_nonvacuous :
+  let b := B [([7; 11], 5); ([7; 12], 6)] [Some (Conn 5 [117] None true [] []); Some (Conn 6 [118] None true [] [])] [] 0 [] [] in
+  presence_who held_ix false b [7; 11] = [(0, [117])].
+Proof. vm_compute. reflexivity. Qed.
